@@ -138,7 +138,7 @@ def _live_roundtrip(names, ctx, where):
             # FK_PATTERN / UNIQUE_PATTERN / _find_cols_in_sig): names containing a double quote, a newline or a parenthesis
             # defeat those regexes.  Listed known finding; excluded here unless the case is the pinned replay.
             def _regex_hostile(*ns):
-                return any(ch in n for n in ns for ch in '"\n()')
+                return any(ch in n for n in ns for ch in '"\n()$')  # "$" : legal unquoted for SQLAlchemy, not matched by the [a-z0-9_]+ of the regexes
 
             if names.get("fk") is not None:
                 if _regex_hostile(names["fk"], tname) and not names.get("pinned"):
